@@ -45,6 +45,23 @@ theorem synced_pop (h : Inv cs v c) (hp : c.prog = x :: rest) (hne : x ≠ .flus
     have := hs.no_cross mem_milestones_fwLast (by omega) hne
     omega
 
+theorem tempSome_pop (h : Inv cs v c) (hp : c.prog = x :: rest) (hx16 : 16 ≤ rank x) :
+    hr rest ≤ 24 → c.fs.temp ≠ none := by
+  intro h24
+  have hs : Shape (x :: rest) := hp ▸ h.shape
+  have hge : rank x ≤ hr rest := hs.hr_rest_ge
+  exact h.tempSome (by rw [hp]; simp only [hr_cons]; omega) (by rw [hp]; simp only [hr_cons]; omega)
+
+theorem termLate_pop (h : Inv cs v c) (hp : c.prog = x :: rest) (hne : x ≠ .markClosed) :
+    19 ≤ hr rest → hr rest ≤ 25 → c.term = true := by
+  intro h19 h25
+  have hs : Shape (x :: rest) := hp ▸ h.shape
+  by_cases hx : 19 ≤ rank x
+  · exact h.termLate (by rw [hp]; simpa using hx) (by rw [hp]; simpa using rank_head_le h hp)
+  · have h18 : rank Item.markClosed = 18 := rfl
+    have := hs.no_cross mem_milestones_markClosed (by omega) hne
+    omega
+
 end pop
 
 
@@ -201,7 +218,7 @@ theorem inv_late_pop {cs : List Chunk} {v : Variant} {c : Cfg} {x : Item} {rest 
   have hs : Shape (x :: rest) := hp ▸ h.shape
   have hge : rank x ≤ hr rest := hs.hr_rest_ge
   refine inv_late hs.tail (by simp only; omega) h.wtemp (quiet_pop (c := c) h hp hnq) (closed_pop (c := c) h hp hnm)
-    (synced_pop (c := c) h hp hnf) h.safe h.handTerm ?_
+    (synced_pop (c := c) h hp hnf) h.safe h.handTerm ?_ (tempSome_pop (c := c) h hp hx16) (termLate_pop (c := c) h hp hnm)
   intro hh _ h25
   exact hmain hh h25
 
@@ -239,6 +256,7 @@ theorem inv_append {cs : List Chunk} {v : Variant} {c : Cfg} {ci : ChunkInfo} {r
     have := hs.no_cross mem_milestones_waitQuiet (by simp [rank]) (by simp)
     simpa [rank] using this
   refine inv_late hs.tail (by simp only; omega) h.wtemp ?_ ?_ ?_ h.safe h.handTerm ?_
+    (tempSome_pop (c := c) h hp (by simp [rank])) (by intro h19 _; simp only at h19; omega)
   · intro h18 _; simp only at h18; omega
   · intro h19 _; simp only at h19; omega
   · intro h23 _; simp only at h23; omega
@@ -270,6 +288,7 @@ theorem inv_markClosed {cs : List Chunk} {v : Variant} {c : Cfg} {rest : List It
     have := hs.no_cross mem_milestones_fwLast (by simp [rank]) (by simp)
     simpa [rank] using this
   refine inv_late hs.tail (by simp only; omega) h.wtemp (quiet_pop (c := c) h hp (by simp)) ?_ ?_ h.safe ?_ ?_
+    (tempSome_pop (c := c) h hp (by simp [rank])) (by intro _ _; rfl)
   · intro _ _; exact ⟨rfl, rfl⟩
   · intro h23 _; simp only at h23; omega
   · intro _; rfl
@@ -293,6 +312,7 @@ theorem inv_waitQuiet {cs : List Chunk} {v : Variant} {c : Cfg} {rest : List Ite
     have := hs.no_cross mem_milestones_markClosed (by simp [rank]) (by simp)
     simpa [rank] using this
   refine inv_late hs.tail (by simp only; omega) h.wtemp ?_ ?_ ?_ h.safe h.handTerm ?_
+    (tempSome_pop (c := c) h hp (by simp [rank])) (by intro h19 _; simp only at h19; omega)
   · intro _ _; exact anyRunning_false hq
   · intro h19 _; simp only at h19; omega
   · intro h23 _; simp only at h23; omega
@@ -306,6 +326,7 @@ theorem inv_finish {cs : List Chunk} {v : Variant} {c : Cfg} {rest : List Item} 
   have hs : Shape (.finish :: rest) := hp ▸ h.shape
   have hgt : 25 < hr rest := by have := hs.hr_rest_gt (by simp [rank]) (by simp [rank]); simpa [rank] using this
   refine inv_late hs.tail (by simp only; omega) h.wtemp ?_ ?_ ?_ h.safe h.handTerm ?_
+    (by intro h24; simp only at h24; omega) (by intro _ h25; simp only at h25; omega)
   · intro _ h25; simp only at h25; omega
   · intro _ h25; simp only at h25; omega
   · intro _ h24; simp only at h24; omega
@@ -343,6 +364,7 @@ theorem inv_submit {cs : List Chunk} {v : Variant} {c : Cfg} {i : Nat} {ops : Li
     have := h.shape.ok (.submit i ops) (by rw [hp]; simp)
     simpa [okItem] using this
   refine inv_late hs.tail (by simp only; omega) ?_ ?_ ?_ ?_ h.safe h.handTerm ?_
+    (tempSome_pop (c := c) h hp (by simp [rank])) (by intro h19 _; simp only at h19; omega)
   · intro w hw o ho
     rcases List.mem_append.mp hw with hw | hw
     · exact h.wtemp w hw o ho
@@ -532,7 +554,7 @@ theorem inv_flush {cs : List Chunk} {v : Variant} {c : Cfg} {x : Item} {rest : L
   · rw [he]
     obtain ⟨hfin, t, t', ht, ht', hag, hwr, hcl⟩ := apply_mdOp hoo ha
     refine inv_late hs.tail (by simp only; omega) h.wtemp (quiet_pop (c := c) h hp hnq) (closed_pop (c := c) h hp hnm)
-      ?_ ?_ h.handTerm ?_
+      ?_ ?_ h.handTerm ?_ (by intro _; simp [ht']) (termLate_pop (c := c) h hp hnm)
     · -- the metadata file equals the metadata in memory from the final write on
       intro h23 h24
       simp only at h23 h24
@@ -575,6 +597,435 @@ theorem inv_flush {cs : List Chunk} {v : Variant} {c : Cfg} {x : Item} {rest : L
         rw [ht'] at ht''; injection ht'' with ht''; subst ht''
         exact ⟨t, ht, hag⟩)
       exact m2
-  · rw [he]; exact inv_opFail h
+  · rw [he]; exact inv_opFail h (by rw [hp]; simp)
+
+
+/-! ## the final rename -/
+
+
+theorem loadChunk_infoOf {t : Dir} {i : Nat} {c : Chunk}
+    (h : c.rows.isEmpty = false → t.get (.chunk i) = some (.rows c.rows)) : loadChunk t (infoOf i c) = .ok c := by
+  unfold loadChunk infoOf
+  by_cases he : c.rows = []
+  · simp [he]
+    cases c; simp_all
+  · have hl : c.rows.length ≠ 0 := by simpa using he
+    have hne : c.rows.isEmpty = false := by simpa using he
+    simp [hl, hne, h hne]
+
+theorem loadChunks_infos {t : Dir} : ∀ (cs : List Chunk) (s : Nat),
+    (∀ k (hk : k < cs.length), cs[k].rows.isEmpty = false → t.get (.chunk (s + k)) = some (.rows cs[k].rows)) →
+    loadChunks t (infos cs s) = .ok cs := by
+  intro cs
+  induction cs with
+  | nil => intro s _; simp [infos, loadChunks]
+  | cons c rest ih =>
+    intro s h
+    have h0 := loadChunk_infoOf (t := t) (i := s) (c := c) (by
+      intro hne
+      have := h 0 (by simp) (by simpa using hne)
+      simpa using this)
+    have hr := ih (s + 1) (by
+      intro k hk hne
+      have := h (k + 1) (by simp; omega) (by simpa using hne)
+      simpa [Nat.add_assoc, Nat.add_comm 1 k] using this)
+    simp [infos, loadChunks, h0, hr]
+
+theorem infos_ne_nil {cs : List Chunk} (h : cs ≠ []) (s : Nat) : (infos cs s).isEmpty = false := by
+  cases cs with
+  | nil => exact absurd rfl h
+  | cons c rest => simp [infos]
+
+theorem pendApp_nil_of_rank {p : List Item} (h : ∀ x ∈ p, 17 ≤ rank x) : pendApp p = [] := by
+  induction p with
+  | nil => rfl
+  | cons x q ih =>
+    have hx := h x (by simp)
+    have hq := ih (fun y hy => h y (by simp [hy]))
+    cases x <;> simp_all [pendApp, rank]
+
+theorem submitIdx_nil_of_rank {p : List Item} (h : ∀ x ∈ p, 17 ≤ rank x) : submitIdx p = [] := by
+  induction p with
+  | nil => rfl
+  | cons x q ih =>
+    have hx := h x (by simp)
+    have hq := ih (fun y hy => h y (by simp [hy]))
+    cases x <;> simp_all [submitIdx, rank]
+
+theorem readIdx_nil_of_rank {p : List Item} (h : ∀ x ∈ p, 21 ≤ rank x) : readIdx p = [] := by
+  induction p with
+  | nil => rfl
+  | cons x q ih =>
+    have hx := h x (by simp)
+    have hq := ih (fun y hy => h y (by simp [hy]))
+    cases x <;> simp_all [readIdx, rank]
+
+theorem notCollected_false_of_rank {p : List Item} (h : ∀ x ∈ p, 21 ≤ rank x) : notCollected p = false := by
+  simp only [notCollected]
+  cases hc : p.contains Item.collect with
+  | false => rfl
+  | true =>
+    have := h .collect (by simpa using hc)
+    simp [rank] at this
+
+theorem length_stdOps_ge (v : Variant) (i : Nat) (c : Chunk) (h : c.rows.isEmpty = false) : 4 ≤ (stdOps v i c).length := by
+  cases v <;> simp [stdOps, writeOps, forkOps, h] <;> omega
+
+/-- past the chunk phase every chunk write has succeeded -/
+theorem all_ok_late {cs : List Chunk} {v : Variant} {c : Cfg} (m : Main cs v c) (hs : Sorted c.prog) (hk : 17 ≤ hr c.prog) :
+    ∀ w ∈ c.workers, w.st = .ok := by
+  have hr : ∀ x ∈ c.prog, 17 ≤ rank x := fun x hx => by have := hs.hr_le_mem x hx; omega
+  have ha := m.awaited
+  cases v with
+  | serial =>
+    simp only [Awaited] at ha
+    refine all_ok_of_dropLast ha.1 ?_
+    intro w hl
+    by_cases hok : w.st = .ok
+    · exact hok
+    · obtain ⟨r, hr'⟩ := ha.2 w hl hok
+      have := hr .join (by rw [hr']; simp)
+      simp [rank] at this
+  | executor | forked =>
+    simp only [Awaited] at ha
+    rcases ha with ⟨hin, _⟩ | ⟨_, hok⟩
+    · have := hr .waitAll hin; simp [rank] at this
+    · exact hok
+
+/-- when the temp directory is about to be renamed on the main path, the metadata lists exactly the chunks and
+every data file is in place -/
+theorem main_complete {cs : List Chunk} {v : Variant} {c : Cfg} (m : Main cs v c) (hcs : cs ≠ []) (hs : Sorted c.prog)
+    (hk : 21 ≤ hr c.prog) {t : Dir} (ht : c.fs.temp = some t) :
+    c.md.chunks.isEmpty = false ∧ loadChunks t c.md.chunks = .ok cs := by
+  have hr : ∀ x ∈ c.prog, 21 ≤ rank x := fun x hx => by have := hs.hr_le_mem x hx; omega
+  have hr17 : ∀ x ∈ c.prog, 17 ≤ rank x := fun x hx => by have := hr x hx; omega
+  have hpend : pending v cs c.prog = [] := by
+    cases v with
+    | forked => simp [pending, notCollected_false_of_rank hr, readIdx_nil_of_rank hr]
+    | serial => simp [pending, pendApp_nil_of_rank hr17]
+    | executor => simp [pending, pendApp_nil_of_rank hr17]
+  have hmd : c.md.chunks = infos cs 0 := by have := m.chunksMd; simpa [hpend] using this
+  have hok := all_ok_late m hs (by omega)
+  refine ⟨by rw [hmd]; exact infos_ne_nil hcs 0, ?_⟩
+  rw [hmd]
+  apply loadChunks_infos
+  intro k hk' hne
+  have hnw : needsW v cs[k] = true := by cases v <;> simp [needsW, hne]
+  rcases m.cover k hk' hnw with hc | ⟨w, hw, hwi⟩
+  · rw [submitIdx_nil_of_rank hr17] at hc; simp at hc
+  · have hst := hok w hw
+    obtain ⟨hj, n, h1, h2, h3, h4⟩ := m.wstd w hw (by rw [hst]; simp)
+    have hops : w.ops = [] := h3.mp hst
+    subst hwi
+    have hlen := length_stdOps_ge v w.i cs[w.i] hne
+    have hn : 4 ≤ n := by
+      rw [hops] at h1
+      have : (stdOps v w.i cs[w.i]).length ≤ n := by
+        have := congrArg List.length h1
+        simp at this; omega
+      omega
+    have := (h4 t ht).2.1 hne hn
+    simpa using this
+
+
+
+theorem apply_renameFinal {fs fs' : FS} (h : apply fs (.renameDir .temp .final) = .ok fs') :
+    ∃ t, fs.temp = some t ∧ fs'.final = some t ∧ fs'.temp = none := by
+  simp only [apply, FS.dir] at h
+  split at h
+  · simp at h
+  · split at h
+    · rename_i t ht
+      split at h <;> simp at h <;> (subst h; exact ⟨t, ht, rfl, rfl⟩)
+    · simp at h
+
+/-- `os.rename(temp, final)`: the only operation that makes data visible -/
+theorem inv_rename {cs : List Chunk} {v : Variant} {c : Cfg} {rest : List Item} (hcs : cs ≠ []) (h : Inv cs v c)
+    (hp : c.prog = .op (.renameDir .temp .final) :: rest) : Inv cs v (c.doOp (.renameDir .temp .final) rest) := by
+  have hs : Shape (.op (.renameDir .temp .final) :: rest) := hp ▸ h.shape
+  have hk : hr c.prog = 24 := by rw [hp]; rfl
+  have hgt : 24 < hr rest := by have := hs.hr_rest_gt (by simp [rank]) (by simp [rank]); simpa [rank] using this
+  rcases doOp_eq c (.renameDir .temp .final) rest with ⟨fs', ha, he⟩ | he
+  · rw [he]
+    obtain ⟨t, ht, hfin, htmp⟩ := apply_renameFinal ha
+    obtain ⟨t0, ht0, hmd⟩ := h.synced (by omega) (by omega)
+    rw [ht] at ht0; injection ht0 with ht0; subst ht0
+    obtain ⟨hend, hexc⟩ := h.closedMd (by omega) (by omega)
+    refine inv_late hs.tail (by simp only; omega) h.wtemp ?_ ?_ ?_ ?_ h.handTerm ?_
+      (by intro h24; simp only at h24; omega) (by intro _ _; exact h.termLate (by omega) (by omega))
+    · intro _ h25; exact h.quiet (by omega) (by omega)
+    · intro _ _; exact ⟨hend, hexc⟩
+    · intro _ h24; simp only at h24; omega
+    · -- the new final directory is safe
+      intro d hd
+      simp only [hfin] at hd; injection hd with hd; subst hd
+      unfold SafeDir
+      rw [hmd]
+      intro hgood
+      cases hh : c.handling with
+      | true => simp [Meta.good, hend, hexc, hh] at hgood
+      | false =>
+        have m := h.main hh (by omega) (by omega)
+        exact main_complete m hcs h.shape.sorted (by omega) ht
+    · intro hh _ _
+      have m := main_of_inv h hp (by simp [rank]) hh
+      have m1 := main_pop m hp hs.hr_rest_ge (by simp) (by simp) (by simp) (by simp) (by simp) (by simp)
+      exact main_fs m1 fs' (by intro t' ht'; rw [htmp] at ht'; cases ht')
+  · rw [he]; exact inv_opFail h (by rw [hp]; simp)
+
+
+
+theorem apply_unlinkTemp {fs fs' : FS} {n : Name} (h : apply fs (.unlink .temp n) = .ok fs') :
+    fs'.final = fs.final ∧ ∃ t, fs.temp = some t ∧ fs'.temp = some (t.del n) := by
+  simp only [apply, FS.dir] at h
+  split at h
+  · rename_i t ht
+    split at h <;> simp at h
+    subst h
+    exact ⟨rfl, t, ht, rfl⟩
+  · simp at h
+
+theorem notCollected_tail_false {x : Item} {rest : List Item} (h : notCollected (x :: rest) = false) : notCollected rest = false := by
+  simp only [notCollected, List.contains_cons, Bool.or_eq_false_iff] at h
+  exact h.2
+
+/-- `os.remove(metadata_i.json)` after it was read -/
+theorem inv_unlink {cs : List Chunk} {v : Variant} {c : Cfg} {i : Nat} {rest : List Item} (h : Inv cs v c)
+    (hp : c.prog = .op (.unlink .temp (.cmeta i)) :: rest) : Inv cs v (c.doOp (.unlink .temp (.cmeta i)) rest) := by
+  have hs : Shape (.op (.unlink .temp (.cmeta i)) :: rest) := hp ▸ h.shape
+  have hk : hr c.prog = 20 := by rw [hp]; rfl
+  have hge : 20 ≤ hr rest := by have := hs.hr_rest_ge; simpa [rank] using this
+  have hle : hr rest ≤ 22 := by
+    have := hs.no_cross mem_milestones_fwLast (by simp [rank]) (by simp)
+    simpa [rank] using this
+  rcases doOp_eq c (.unlink .temp (.cmeta i)) rest with ⟨fs', ha, he⟩ | he
+  · rw [he]
+    obtain ⟨hfin, t, ht, ht'⟩ := apply_unlinkTemp ha
+    refine inv_late hs.tail (by simp only; omega) h.wtemp ?_ ?_ ?_ ?_ h.handTerm ?_
+      (by intro _; simp [ht']) (by intro _ _; exact h.termLate (by omega) (by omega))
+    · intro _ _; exact h.quiet (by omega) (by omega)
+    · intro _ _; exact h.closedMd (by omega) (by omega)
+    · intro h23 _; simp only at h23; omega
+    · intro d hd; exact h.safe d (by simpa [hfin] using hd)
+    · intro hh _ _
+      have m := main_of_inv h hp (by simp [rank]) hh
+      have hnc : notCollected c.prog = false := (m.lateItems (Or.inr ⟨i, by rw [hp]; simp⟩)).2
+      have hncr : notCollected rest = false := by rw [hp] at hnc; exact notCollected_tail_false hnc
+      have hnotin : i ∉ readIdx rest := (hp ▸ m.unl) [] rest i rfl
+      have m1 := main_pop m hp hs.hr_rest_ge (by simp) (by simp) (by simp) (by simp) (by simp) (by simp)
+      -- now the file system change: only `metadata_i.json` disappears
+      constructor
+      · exact m1.chunksMd
+      · exact m1.cover
+      · exact m1.nodup
+      · exact m1.substd
+      · intro w hw hf
+        obtain ⟨hj, n, h1, h2, h3, h4⟩ := m1.wstd w hw hf
+        refine ⟨hj, n, h1, h2, h3, ?_⟩
+        intro t' ht''
+        simp only at ht''
+        rw [ht'] at ht''; injection ht'' with ht''; subst ht''
+        obtain ⟨f1, f2, _⟩ := h4 t ht
+        refine ⟨?_, ?_, ?_⟩
+        · intro a b d; rw [Dir.get_del]; simpa using f1 a b d
+        · intro a b; rw [Dir.get_del]; simpa using f2 a b
+        · intro _ hcol; simp [hncr] at hcol
+      · exact awaited_congr (c1 := { c with prog := rest }) rfl rfl m1.awaited
+      · intro j hj
+        obtain ⟨hjl, hr⟩ := m1.reads j hj
+        refine ⟨hjl, ?_⟩
+        intro t' ht''
+        simp only at ht''
+        rw [ht'] at ht''; injection ht'' with ht''; subst ht''
+        rw [Dir.get_del]
+        have hne : j ≠ i := fun e => hnotin (e ▸ hj)
+        simpa [hne] using hr t ht
+      · intro hn; simp only at hn; rw [hncr] at hn; cases hn
+      · exact m1.mdOpen
+      · exact m1.sj
+      · exact m1.noApp
+      · exact m1.noRead
+      · intro hv t' ht'' j
+        simp only at ht''
+        rw [ht'] at ht''; injection ht'' with ht''; subst ht''
+        rw [Dir.get_del]
+        have := m1.nocmeta hv t ht j
+        split <;> simp_all
+      · exact m1.unl
+      · exact m1.collectOnce
+      · exact m1.lateItems
+  · rw [he]; exact inv_opFail h (by rw [hp]; simp)
+
+
+
+/-! ## `sorted(glob(metadata_*.json))` -/
+
+theorem mem_cmetaIdx {t : Dir} {j : Nat} : j ∈ cmetaIdx t ↔ (t.get (.cmeta j)).isSome = true := by
+  induction t with
+  | nil => simp [cmetaIdx, Dir.get]
+  | cons e rest ih =>
+    obtain ⟨k, c⟩ := e
+    simp only [cmetaIdx, List.filterMap_cons, Dir.get] at ih ⊢
+    by_cases hk : k = .cmeta j
+    · subst hk; simp
+    · cases k with
+      | cmeta i =>
+        have hij : i ≠ j := fun e => hk (by rw [e])
+        simp only [hk, if_false, List.mem_cons]
+        have : ¬ j = i := fun e => hij e.symm
+        simp [this]
+        simpa using ih
+      | _ => simpa [hk] using ih
+
+theorem foldl_bound (l : List Nat) (a : Nat) :
+    a ≤ l.foldl (fun a b => max a (b + 1)) a ∧ ∀ j ∈ l, j < l.foldl (fun a b => max a (b + 1)) a := by
+  induction l generalizing a with
+  | nil => simp
+  | cons x q ih =>
+    simp only [List.foldl_cons, List.mem_cons]
+    obtain ⟨h1, h2⟩ := ih (max a (x + 1))
+    refine ⟨by omega, ?_⟩
+    intro j hj
+    rcases hj with rfl | hj
+    · omega
+    · exact h2 j hj
+
+theorem filter_lt_range (n b : Nat) (h : n ≤ b) : (List.range b).filter (fun j => decide (j < n)) = List.range n := by
+  induction b with
+  | zero => have : n = 0 := by omega
+            subst this; simp
+  | succ b ih =>
+    rw [List.range_succ, List.filter_append]
+    by_cases hb : n ≤ b
+    · rw [ih hb]; simp; omega
+    · have : n = b + 1 := by omega
+      subst this
+      have : (List.range b).filter (fun j => decide (j < b + 1)) = List.range b := by
+        apply List.filter_eq_self.mpr
+        intro a ha; simp at ha ⊢; omega
+      rw [this, List.range_succ]; simp
+
+/-- when exactly the files `metadata_0 … metadata_(n-1)` are there, they are collected in this order -/
+theorem collectList_eq_range {t : Dir} {n : Nat} (h : ∀ j, (t.get (.cmeta j)).isSome = true ↔ j < n) :
+    collectList t = List.range n := by
+  unfold collectList
+  simp only
+  have hb := foldl_bound (cmetaIdx t) 0
+  have hle : n ≤ (cmetaIdx t).foldl (fun a b => max a (b + 1)) 0 := by
+    cases n with
+    | zero => omega
+    | succ m =>
+      have : m ∈ cmetaIdx t := mem_cmetaIdx.mpr ((h m).mpr (by omega))
+      have := hb.2 m this
+      omega
+  rw [← filter_lt_range n _ hle]
+  apply List.filter_congr
+  intro j _
+  by_cases hj : j < n
+  · simp [hj, (h j).mpr hj]
+  · have : (t.get (.cmeta j)).isSome = false := by
+      cases hs : (t.get (.cmeta j)).isSome with
+      | false => rfl
+      | true => exact absurd ((h j).mp hs) hj
+    simp [hj, this]
+
+theorem filterMap_range_infos : ∀ (cs : List Chunk), (List.range cs.length).filterMap (fun i => (cs[i]?).map (infoOf i)) = infos cs 0 := by
+  intro cs
+  suffices h : ∀ (cs : List Chunk) (s : Nat) (pre : List Chunk), pre.length = s →
+      (List.range' s cs.length).filterMap (fun i => ((pre ++ cs)[i]?).map (infoOf i)) = infos cs s by
+    have := h cs 0 [] rfl
+    simpa [List.range_eq_range'] using this
+  intro cs
+  induction cs with
+  | nil => intro s pre _; simp [infos]
+  | cons c rest ih =>
+    intro s pre hpre
+    have hget : (pre ++ c :: rest)[s]? = some c := by
+      rw [List.getElem?_append_right (by omega)]; simp [hpre]
+    have := ih (s + 1) (pre ++ [c]) (by simp [hpre])
+    simp only [List.length_cons, List.range'_succ, List.filterMap_cons, hget, Option.map_some, infos]
+    simp only [List.append_assoc, List.singleton_append] at this
+    rw [this]
+
+
+
+theorem rank_collectItems (l : List Nat) : ∀ x ∈ collectItems l, rank x = 20 ∧ okItem x = true := by
+  intro x hx
+  simp only [collectItems, List.mem_flatMap, List.mem_cons, List.mem_nil_iff, or_false] at hx
+  obtain ⟨i, _, rfl | rfl⟩ := hx <;> simp [rank, okItem]
+
+theorem collectItems_cons (i : Nat) (l : List Nat) :
+    collectItems (i :: l) = .readInfo i :: .op (.unlink .temp (.cmeta i)) :: collectItems l := by
+  simp [collectItems]
+
+theorem readIdx_collectItems (l : List Nat) (rest : List Item) : readIdx (collectItems l ++ rest) = l ++ readIdx rest := by
+  induction l with
+  | nil => simp [collectItems]
+  | cons i q ih => simp [collectItems_cons, readIdx, ih]
+
+theorem pendApp_collectItems (l : List Nat) (rest : List Item) : pendApp (collectItems l ++ rest) = pendApp rest := by
+  induction l with
+  | nil => simp [collectItems]
+  | cons i q ih => simp [collectItems_cons, pendApp, ih]
+
+theorem submitIdx_collectItems (l : List Nat) (rest : List Item) : submitIdx (collectItems l ++ rest) = submitIdx rest := by
+  induction l with
+  | nil => simp [collectItems]
+  | cons i q ih => simp [collectItems_cons, submitIdx, ih]
+
+theorem notCollected_collectItems (l : List Nat) (rest : List Item) : notCollected (collectItems l ++ rest) = notCollected rest := by
+  induction l with
+  | nil => simp [collectItems]
+  | cons i q ih =>
+    rw [collectItems_cons, List.cons_append, List.cons_append, notCollected_cons (by simp), notCollected_cons (by simp), ih]
+
+/-- the collect item is replaced by a read / unlink pair per file found -/
+theorem shape_collect {rest : List Item} (hs : Shape (.collect :: rest)) (l : List Nat) : Shape (collectItems l ++ rest) := by
+  have h20 : rank Item.collect = 20 := rfl
+  refine hs.tail.prepend ?_ (fun y hy => (rank_collectItems l y hy).2) ?_ ?_
+  · exact List.pairwise_of_forall_mem_list (fun a ha b hb =>
+      Or.inr ⟨by rw [(rank_collectItems l a ha).1, (rank_collectItems l b hb).1], Or.inr (rank_collectItems l a ha).1⟩)
+  · intro y hy z hz
+    have hy20 := (rank_collectItems l y hy).1
+    rcases hs.sorted.head_rle z hz with h | h
+    · left; omega
+    · right; exact ⟨by omega, Or.inr hy20⟩
+  · intro m hm hle
+    right
+    have hge : 20 ≤ hr (collectItems l ++ rest) := by
+      cases hl : collectItems l with
+      | nil => have := hs.hr_rest_ge; simpa [h20] using this
+      | cons y q =>
+        have := (rank_collectItems l y (by rw [hl]; simp)).1
+        simp [this]
+    have hin : m ∈ Item.collect :: rest := hs.miles m hm (by simp only [hr_cons]; omega)
+    rcases List.mem_cons.mp hin with rfl | hin
+    · simp [milestones] at hm
+    · exact hs.tail.sorted.hr_le_mem m hin
+
+theorem unlinkOK_collectItems {l : List Nat} {rest : List Item} (hl : l.Nodup) (hr : readIdx rest = [])
+    (hu : UnlinkOK rest) : UnlinkOK (collectItems l ++ rest) := by
+  induction l with
+  | nil => simpa [collectItems] using hu
+  | cons i q ih =>
+    have hq := ih (List.nodup_cons.mp hl).2
+    intro pre post j he
+    rw [collectItems_cons] at he
+    simp only [List.cons_append] at he
+    cases pre with
+    | nil => simp at he
+    | cons y pre' =>
+      simp only [List.cons_append, List.cons.injEq] at he
+      cases pre' with
+      | nil =>
+        simp only [List.nil_append, List.cons.injEq] at he
+        obtain ⟨_, hj, hpost⟩ := he
+        simp only [Item.op.injEq, Op.unlink.injEq, Name.cmeta.injEq, true_and] at hj
+        subst hj
+        rw [← hpost, readIdx_collectItems, hr]
+        simpa using (List.nodup_cons.mp hl).1
+      | cons z pre'' =>
+        simp only [List.cons_append, List.cons.injEq] at he
+        exact hq pre'' post j he.2.2
 
 end Strax.FS
